@@ -230,8 +230,8 @@ def eval_reader(model, template, token, include='+', type_='reg', global_meta=No
 
     def findall(ev_, args, kw):
         base = args[0]
-        if isinstance(base, App) and base.name == 're.compile':
-            p = base.args[0].v
+        if (isinstance(base, App) and base.name == 're.compile') or (isinstance(base, Obj) and base.cls == 'regex'):
+            p = base.args[0].v if isinstance(base, App) else base.fields['pattern'].v
             if p == rx['regex_coordinate']:
                 return Tup(tuple(conv(c) for c in coords), 'list')
             if p == rx['regex_length']:
